@@ -177,12 +177,15 @@ package queue
 //@   tags C06 C07
 //@   opt locks=caller
 //@   opt go=ignore
-//@   requires [C06.process.locked] p != nil && heldw(p.lock)
+//@   requires [C06.process.locked] p != nil && heldw(p.lock) && inv(p)
 //@   modifies nothing
 //@   ensures heldw(p.lock)
 
+// the loop goroutine: serves the queue and runs the user callback, so its effects are not bounded by the frame of the
+// Enqueue/Dequeue that happened to start it
 //@ func (*Processor).process$1
 //@   tags C06 C07
+//@   opt go=detached
 //@   requires p != nil && inv(p)
 
 //@ func (*Processor).processLoop$1
@@ -215,7 +218,7 @@ package queue
 // the operation had r's key (the head is being replaced) or the head after it is r.
 //@ func (*Processor).Enqueue
 //@   tags C06 C07
-//@   requires p != nil
+//@   requires p != nil && inv(p)
 //@   ensures [C06.enq.stopped] old(p.stopped.v) != 0 ==> nolocks()
 //@   ensures [C06.enq.view] old(p.stopped.v) == 0 ==> (at(U, haskey(p.queue.items, qkey(r))) && at(U, p.queue.items[qkey(r)].value) == r
 //@        && (forall k tp :: k != qkey(r) ==> (at(U, haskey(p.queue.items, k)) == at(L, haskey(p.queue.items, k)) && (at(L, haskey(p.queue.items, k)) ==> at(U, p.queue.items[k].value) == at(L, p.queue.items[k].value)))))
@@ -230,7 +233,7 @@ package queue
 //@ func (*Processor).Dequeue
 //@   tags C06 C07
 //@   ghost kicked bool
-//@   requires p != nil
+//@   requires p != nil && inv(p)
 //@   ensures [C06.deq.view] old(p.stopped.v) == 0 ==> (!at(U, haskey(p.queue.items, key))
 //@        && (forall k tp :: k != key ==> (at(U, haskey(p.queue.items, k)) == at(L, haskey(p.queue.items, k)) && (at(L, haskey(p.queue.items, k)) ==> at(U, p.queue.items[k].value) == at(L, p.queue.items[k].value)))))
 //@   ensures [C06.deq.isfirst] old(p.stopped.v) == 0 ==> (kicked <==> (at(L, len(*p.queue.heap)) > 0 && qkey(at(L, (*p.queue.heap)[0].value)) == key))
